@@ -486,9 +486,13 @@ func runC12(c C12Case) (res c12result) {
 			if f := takeRequest(i); f != "" {
 				return c12result{Fail: f}
 			}
-			for _, j := range pending {
-				if ids[j] == ids[i] && requestType(c.Reqs[j].Kind) == requestType(c.Reqs[i].Kind) {
-					return c12result{Incon: fmt.Sprintf("an automatic packet identifier (%d) coincides with one in flight", ids[i])}
+			// the library numbers requests from a process-wide counter; once in 65535 requests
+			// that number is the one the application chose for an earlier request of this case,
+			// which may still be in the queue (also a forced one that waits behind an
+			// unacknowledged request): outside the domain (two requests, one identifier)
+			for j := 0; j < i; j++ {
+				if c.Reqs[i].ExplicitID == 0 && ids[j] == ids[i] && ids[i] != 0 && requestType(c.Reqs[j].Kind) == requestType(c.Reqs[i].Kind) {
+					return c12result{Incon: fmt.Sprintf("an automatic packet identifier (%d) coincides with one used earlier in the case", ids[i])}
 				}
 			}
 			pending = append(pending, i)
@@ -519,6 +523,12 @@ func runC12(c C12Case) (res c12result) {
 		if f := takeRequest(i); f != "" {
 			close(release)
 			return c12result{Fail: f}
+		}
+		for j := 0; j < i; j++ {
+			if c.Reqs[i].ExplicitID == 0 && ids[j] == ids[i] && ids[i] != 0 && requestType(c.Reqs[j].Kind) == requestType(c.Reqs[i].Kind) {
+				close(release)
+				return c12result{Incon: fmt.Sprintf("an automatic packet identifier (%d) coincides with one used earlier in the case", ids[i])}
+			}
 		}
 		f := acknowledge(i, true)
 		close(release)
